@@ -181,12 +181,15 @@ class GatedLinearUnit(Transform):
     def forward(self, inputs, context=None):
         gate = torch.sigmoid(context)
         # return inputs * (1 + gate), torch.log(torch.ones_like(gate) + gate).reshape(-1)
-        return inputs * gate, torch.log(gate).reshape(-1)
+        # Every input feature is scaled by the gate, so each one contributes log(gate).
+        logabsdet = torchutils.sum_except_batch(torch.log(gate) + torch.zeros_like(inputs))
+        return inputs * gate, logabsdet
 
     def inverse(self, inputs, context=None):
         gate = torch.sigmoid(context)
         # return inputs / (1 + gate), - torch.log(torch.ones_like(gate) + gate).reshape(-1)
-        return inputs / gate, -torch.log(gate).reshape(-1)
+        logabsdet = -torchutils.sum_except_batch(torch.log(gate) + torch.zeros_like(inputs))
+        return inputs / gate, logabsdet
 
 
 class CauchyCDF(Transform):
